@@ -450,7 +450,7 @@ class Batch:
         # the interpreted checker costs about (symbols/500)^2 seconds on a layout: keep its total inside the tier's wall time
         q = tier == 'quick'
         self.cap = 2.5 if q else 25.0                   # per layout
-        self.budgets = {'library': 25.0 if q else 180.0, 'random-plain': 25.0 if q else 180.0, 'exhaustive-small': 10.0 if q else 40.0}
+        self.budgets = {'library': 25.0 if q else 130.0, 'random-plain': 25.0 if q else 130.0, 'exhaustive-small': 10.0 if q else 40.0}
         self.other_budget = 10.0 if q else 40.0         # per remaining stream
 
     def add(self, spec, stream, obj=None, path=(), premise_expected=True):
@@ -885,7 +885,7 @@ def main(res, tier, rng, replay):
 
     # ---- every structural block of the library (and every structural block inside it) at sampled widths / arities
     lib = G.library_cases(rng, tier)
-    lim_s = 28 if quick else 220
+    lim_s = 28 if quick else 180
     t0 = time.time()
     for i, sp in enumerate(lib):
         if time.time() - t0 > lim_s:
@@ -911,7 +911,7 @@ def main(res, tier, rng, replay):
     n_plain = 800 if quick else 9000
     sizes = [1, 2, 3, 4, 6, 8, 10, 14] if quick else [1, 2, 3, 4, 5, 6, 8, 10, 12, 16, 20, 28, 40]
     profiles = [{}, {'fb': 40}, {'far': 90, 'fan': 60}, {'fb': 0, 'far': 0}, {'fan': 80}]
-    lim_s = 25 if quick else 220
+    lim_s = 25 if quick else 180
     t0 = time.time()
     for i in range(n_plain):
         if time.time() - t0 > lim_s:
